@@ -119,4 +119,8 @@ def extend(ctx, verdicts, by_id, prop=None):
     ctx.extra.update(stats)
     for i in {v["id"] for v in mv}:
         by_id[i] = mo[i]
+    # counted by finish(): every program is evaluated four times (inputs, other inputs, inputs again, fresh compilation on the
+    # other inputs); distinct non-trivial = charged programs with a non-empty result
+    ctx.machine_evals = 4 * stats["machine_programs"]
+    ctx.machine_keys = [("machine", mo[v["id"]]["src"]) for v in mv if mo[v["id"]]["out"].get("k") == "ok" and mo[v["id"]]["out"].get("items")]
     return verdicts + mv
